@@ -74,6 +74,7 @@ CONSTANTS
     NGroups,        \* groups GetNames may list
     MutOps,         \* what MutateHeld may do: subset of {"append", "pop", "reverse"}
     Renames,        \* set of << old, new >> for Replace
+    Reinserts,      \* names Reinsert may take out and put back
     AsFound_AliasWhenNoCutoff,
     AsFound_PopOnStore,
     AsFound_BaseCsvDropsT
@@ -228,6 +229,16 @@ Replace(old, new) ==
     /\ hist' = Append(hist, Call("Replace", "main", old, NoCut, 0, new, FALSE, ""))
     /\ UNCHANGED << held, cutoff, suppress, varlist, gets, texts, maxtime, vl0 >>
 
+(* holder[name] = holder.pop(name) on the main group: a series is taken out and put back unchanged.  What *)
+(* is stored is exactly what was stored (the store is a mapping from names to series; how and in which    *)
+(* order it was filled is not part of it), so every retrieval and every rendering afterwards is the same. *)
+Reinsert(name) ==
+    /\ Len(hist) < MaxHist
+    /\ name \in DOMAIN store["main"]
+    /\ last' = [NoLast EXCEPT !.ev = "Reinsert"]
+    /\ hist' = Append(hist, Call("Reinsert", "main", name, NoCut, 0, "", FALSE, ""))
+    /\ UNCHANGED << store, held, cutoff, suppress, varlist, gets, texts, maxtime, vl0 >>
+
 SetSuppress(b) ==
     /\ Len(hist) < MaxHist
     /\ suppress' = b
@@ -290,6 +301,7 @@ Next == \/ ReadStep
         \/ \E n \in ExtNames : Extend(n)
         \/ \E n \in MaxTimes : n # maxtime /\ SetMaxTime(n)
         \/ \E r \in Renames : Replace(r[1], r[2])
+        \/ \E n \in Reinserts : Reinsert(n)
 
 Spec == Init /\ [][Next]_vars
 
